@@ -34,12 +34,6 @@ theorem fk_type (n : Nat) (T : Tables) (st : Style) (tb : Str) (c0 : Val) (tT tI
         [colV T st tb c0 (fkCol name dbn tT tI tS cas nn uq alt ds)] = .ok (.str (TX.keyType d tS)) := by
   cases d <;> cases tS <;> fkeval
 
-def resS : Option Str → R Val
-  | some s => .ok (.str s)
-  | none => .stuck
-
-@[simp] theorem resS_some (s : Str) : resS (some s) = .ok (.str s) := rfl
-
 /-- the column clause `SOKeyCol.<dialect>CreateSQL(self)` renders for a foreign key -/
 theorem fk_inner (n : Nat) (T : Tables) (st : Style) (tb : Str) (c0 : Val) (tT tI : Str) (tS : Bool) (cas : Cascade)
     (d : Dialect) (c : Caps) (callee : Callee) (hr : prog.resolve callee = some (csFn d))
